@@ -29,6 +29,7 @@ type Obligation struct {
 	File    string
 	Relaxed bool
 	Quick   bool // listed as a known finding: one short attempt, no model search
+	Sites   []string // canaries: the call sites this path went through (cover check)
 }
 
 type WitnessExpr struct {
@@ -69,6 +70,7 @@ type FnCtx struct {
 	lamCache map[string]Term
 	wordAx  map[string]bool
 	opaqueDone map[string]bool
+	VacuousSites []string // call sites no satisfiable path passes (filled by Discharge)
 }
 
 func (c *FnCtx) declare(name string, sort Sort) Term {
@@ -142,6 +144,7 @@ type State struct {
 	knownTags map[string]int
 	storageFault bool
 	lastCrash map[string]string
+	sites  map[string]bool // call sites of the verified function this path returned from normally
 }
 
 type recorder struct {
@@ -169,6 +172,7 @@ func (st *State) clone() *State {
 		W:      st.W,
 		Wk:     st.Wk,
 		path:   append([]string(nil), st.path...),
+		sites:  copySites(st.sites),
 		panicking: st.panicking,
 		recovered: st.recovered,
 		rec:    st.rec,
@@ -297,6 +301,19 @@ func (x *exec) allocRef(st *State) Term {
 // ---- typed assumptions -----------------------------------------------------
 
 // assumeLeaf adds the type invariant of one loaded leaf value.
+// assumeLeafOwned: v was read from a field, element or map entry of the object `owner`. The
+// allocation bound of a stored reference ("it is below the allocation watermark of this state")
+// holds for the fields of ALLOCATED objects only: when the owner is a quantified reference it
+// may denote an object that a callee allocates later (above the watermark), whose fields may
+// point to other fresh objects. Owners that are program values are allocated by construction.
+func (x *exec) assumeLeafOwned(st *State, l Leaf, v Term, owner Term) {
+	if (l.Kind == LRef || l.Kind == LSliceArr) && strings.Contains(owner.S, "!q") {
+		st.assume(Implies(Le(owner, st.W), And(Le(Zero, v), Le(v, st.W))))
+		return
+	}
+	x.assumeLeaf(st, l, v)
+}
+
 func (x *exec) assumeLeaf(st *State, l Leaf, v Term) {
 	switch l.Kind {
 	case LInt:
@@ -382,6 +399,14 @@ func copyBoolMap(m map[string]bool) map[string]bool {
 	n := make(map[string]bool, len(m))
 	for k, v := range m {
 		n[k] = v
+	}
+	return n
+}
+
+func copySites(m map[string]bool) map[string]bool {
+	n := make(map[string]bool, len(m))
+	for k := range m {
+		n[k] = true
 	}
 	return n
 }
